@@ -1,7 +1,7 @@
 """C19 — An error while processing any tile is reported, never swallowed by parallelism."""
 PROPERTY = "C19"
 LEVEL = "other"
-CONTRACT_MODULES = ["contracts.specfuns", "contracts.lemmas_desc", "contracts.pyramid", "contracts.parallel", "contracts.walk"]
+CONTRACT_MODULES = ["contracts.specfuns", "contracts.lemmas_desc", "contracts.pyramid", "contracts.parallel", "contracts.walk", "contracts.reducer"]
 FUNCTIONS = [
     "toasty.par_util.ensure_workers_ok",
     "toasty.par_util.put_checking_workers",
